@@ -178,6 +178,9 @@ type Recv struct {
 	Kind    string
 	Idx     int
 	Known   bool
+	AtInc   int  // publisher incarnation counter when this message was delivered
+	AtAlive bool // a publisher was attached when it was delivered
+	AtPub   int  // len(Published) when it was delivered
 }
 
 type Consumer struct {
@@ -195,6 +198,9 @@ type Consumer struct {
 	TsBytes []byte // raw TS for "ts" consumers
 	// number of control messages seen before media (rtmp)
 	AtJoinPublished int
+	curInc          int
+	curAlive        bool
+	curPub          int
 }
 
 // X is one execution: a fresh server, a publisher slot, consumers, the publish log.
@@ -340,12 +346,13 @@ func (x *X) PumpAll() {
 }
 
 func (c *Consumer) add(typ uint8, ts uint32, p []byte) {
-	r := Recv{Type: typ, Ts: ts, Payload: p}
+	r := Recv{Type: typ, Ts: ts, Payload: p, AtInc: c.curInc, AtAlive: c.curAlive, AtPub: c.curPub}
 	r.Kind, r.Idx, r.Known = IdxOf(typ, p)
 	c.Recv = append(c.Recv, r)
 }
 
 func (x *X) pump(c *Consumer) {
+	c.curInc, c.curAlive, c.curPub = x.Inc, x.PubAlive, len(x.Published)
 	switch {
 	case c.Rtmp != nil:
 		for _, m := range c.Rtmp.Pump() {
